@@ -175,7 +175,7 @@ PATCHFN = ['apply_patch', 'decode_patch_operation', 'detach_path', 'decode_point
            'cJSON_AddItemToArray', 'cJSON_AddItemToObject', 'cJSON_DeleteItemFromObjectCaseSensitive', 'cJSON_DetachItemFromObjectCaseSensitive', 'cJSON_Delete']
 for opc, nm in ((1, 'add'), (2, 'remove'), (3, 'replace'), (4, 'move'), (5, 'copy'), (6, 'test'), (0, 'invalid')):
     QM(('C16',), 'patchunit.%s' % nm, 'harness/patch_unit.c', defs=['-DOPC=%d' % opc], unwind=7, link=['cJSON.c'], stub=['get_item_from_pointer', 'compare_json'], stub_lib='cJSON_Utils.c',
-       unwindset=ML(8, 80) + ['cJSON_Delete:1', 'cJSON_Delete.0:4', 'strcmp.0:8', 'strlen.0:7', 'vf_memcpy.0:66', 'strncmp.0:7', 'strrchr.0:7', 'strcpy.0:8', 'get_object_item.0:5', 'get_object_item.1:5'], cost=20, functions=PATCHFN, timeout=1500)
+       unwindset=ML(8, 80) + ['cJSON_Delete:1', 'cJSON_Delete.0:4', 'strcmp.0:8', 'strlen.0:7', 'vf_memcpy.0:66', 'strncmp.0:7', 'strrchr.0:7', 'strcpy.0:8', 'vf_strcpy.0:10', 'get_object_item.0:5', 'get_object_item.1:5'], cost=20, functions=PATCHFN, timeout=1500)
 QM(('C16', 'C17', 'C18', 'C19'), 'cmpjson.K2', 'harness/cmpjson.c', defs=['-DK=2'], unwind=4, link=['cJSON.c'], stub=['compare_json'], stub_lib='cJSON_Utils.c', unwindset=ML(5, 60) + ['sort_list:1', 'strcmp.0:3', 'check_wf.0:4', 'check_wf.1:4', 'check_wf.2:4', 'build.0:4'],
    cost=30, functions=['compare_json', 'sort_object', 'sort_list', 'compare_strings', 'compare_double'], timeout=1500)
 QM(('C16',), 'decodeptr.L5', 'harness/decode_ptr.c', defs=['-DL=5'], unwind=8, link=['cJSON.c'], unwindset=ML(8, 20) + ['strcmp.0:8'], cost=3, functions=['decode_pointer_inplace'])
